@@ -184,7 +184,7 @@ func stressOnceTickets(r *rand.Rand) string {
 }
 
 func stressOnce(r *rand.Rand) string {
-	if r.Intn(8) == 0 {
+	if r.Intn(4) == 0 {
 		return stressOnceTickets(r)
 	}
 	bus := eb.New()
